@@ -536,11 +536,13 @@ def atomic_probe(bd, tmp, verdict, status, stats, batches, fillers):
         if "panic" in r:
             verdict.violation(f"atomic probe panicked on {r['backend']}: {r['panic']}",
                               {"property": PID, "mode": "atomic", "result": r, "batches": batches, "fillers": fillers})
-        elif r["torn"] > 0:
+        elif r["torn"] > 0 or r.get("scan_torn", 0) > 0:
             if r["backend"] == "fjall" and status.get("KF_FJALL_BATCH_NOT_ATOMIC") == "known":
                 verdict.known_finding("KF_FJALL_BATCH_NOT_ATOMIC", LOCAL_KNOWN["KF_FJALL_BATCH_NOT_ATOMIC"])
             else:
-                verdict.violation(f"{r['backend']}: reader saw a part of a batch {r['samples'][:1]}",
+                what = (f"point reads {r['samples'][:1]}" if r["torn"] > 0 else
+                        f"member scan {r['scan_samples'][:1]}")
+                verdict.violation(f"{r['backend']}: reader saw a part of a batch: {what}",
                                   {"property": PID, "mode": "atomic", "result": r, "batches": batches,
                                    "fillers": fillers})
 
